@@ -118,6 +118,11 @@ func init() {
 		Decides:    "three places where a static type is turned into an unchecked run-time assumption: a typed opcode chosen under IsSubtype(_, Int/Float) is executed by a handler that reads the operand with exactly those accessors; a call on a class-typed receiver is bound statically only under `exact || class has no children`; and the Children sets (with every other field) survive the deep copy of the type environment that the REPL restores, so the no-children test stays truthful.",
 		NotCovered: "narrowing soundness, subtyping, generic instantiation, and whether each native method returns a value of its declared return type (planned ARGREP results, not built; the Regex#* example named in the property is therefore not decided).",
 	}
+	props["C18"] = &PropSpec{
+		Rules:      []string{"switch/matrix", "native/argrep"},
+		Decides:    "two coverage conditions of the comparison code: every implementation of lax equality for a numeric kind has an arm for every numeric representation any of its siblings handles (so `a =~ b` cannot hold in one direction only because an arm is missing), and the four ordering operators of each kind accept identical operand sets; and the native == of every class reads its `any` operand only through checked accessors, so == is total.",
+		NotCovered: "that equal values hash equally, transitivity, and numeric agreement across Int/Float precision boundaries: they depend on the values compared. Reflexivity and symmetry of == for collections.",
+	}
 	props["C20"] = &PropSpec{
 		Rules:      []string{"str/units"},
 		Decides:    "unit consistency of the string implementation: in value/string.go, value/char.go and the native String methods, no comparison or addition/subtraction mixes a byte quantity (len, ByteCount), a code-point quantity (RuneCount, CharCount, Length) and a grapheme quantity (uniseg counts, GraphemeCount), given the documented unit of each index/length parameter.",
